@@ -190,6 +190,13 @@ def run(ctx):
     order = [call_name(c) for c in sorted((c for c in walk_own(conv.node) if isinstance(c, ast.Call) and call_name(c) in ("get_xlsform", "workbook_to_json", "create_survey_element_from_dict", "to_xml")), key=lambda c: c.lineno)]
     r3.check(order == ["get_xlsform", "workbook_to_json", "create_survey_element_from_dict", "to_xml"], "convert:pipeline", "read -> JSON (row validation) -> build -> generate (tree validation)", conv.loc(), why_fail=repr(order))
     rules.append(r3)
+    # the set against which `trigger` references are validated holds QUESTION names only: the statement that records
+    # a name is not on any path that goes on to open a group / repeat frame (a trigger naming a section has no control
+    # to nest the action in, so it must keep being refused)
+    adds = [nid for nid, n in lg.nodes.items() for c in cfgmod.calls_in(n.stmt) if call_name(c) == "add" and isinstance(c.func, ast.Attribute) and norm(c.func.value) == "question_names"]
+    pushes_ = [nid for nid, n in lg.nodes.items() for c in cfgmod.calls_in(n.stmt) if norm(c.func) == "stack.append"]
+    r3.check(len(adds) == 1 and len(pushes_) == 1 and pushes_[0] not in lg.reachable(adds[0], skip_labels=frozenset({"exc"})), "workbook_to_json:question_names",
+             "names recorded for the trigger check are those of question rows only (never of a row that opens a group or repeat)", w2j.loc(loop))
     from .c03 import sticky_sentinel
     sticky_sentinel(ctx, r3, "C17.R3")
     from .c01 import name_validator_rule
@@ -291,6 +298,47 @@ def run(ctx):
                 else:
                     r4.check(guarded, f"K9 {fi.qualname}:{norm(x)}", "index arithmetic is guarded by a length / membership-in-prefix test or an IndexError handler", fi.loc(x),
                              why_fail=f"guards: {gts}")
+    # K6: unpacking the pieces of `text.split(sep)` into a fixed number of names needs the separator to be there:
+    # a dominating `sep in text` test (or its negation leading to a raise / continue), or a ValueError handler
+    for fi in repo.all_functions():
+        if fi.fq not in reach:
+            continue
+        gk = None
+        for x in walk_own(fi.node):
+            if not (isinstance(x, ast.Assign) and len(x.targets) == 1 and isinstance(x.targets[0], ast.Tuple) and len(x.targets[0].elts) >= 2):
+                continue
+            v = x.value
+            while isinstance(v, ast.Subscript):
+                v = v.value
+            if not (isinstance(v, ast.Call) and call_name(v) in ("split", "rsplit") and isinstance(v.func, ast.Attribute) and v.args):
+                continue
+            okc, sep = const_str(ctx, fi.module, v.args[0])
+            recv = norm(v.func.value)
+            if not okc or not isinstance(sep, str):
+                continue
+            if gk is None:
+                gk = cfgmod.build(fi.node.body)
+            nids = [nid for nid, n in gk.nodes.items() if n.stmt is x]
+            guarded = bool(nids) and all(_membership_guarded(gk, nid, recv, repr(sep)) for nid in nids)
+            guarded = guarded or _in_try(x, ("ValueError", "Exception"))
+            # maxsplit that guarantees the count (`split(sep, 1)` into two names after a membership test is the idiom)
+            r4.check(guarded, f"K6 {fi.qualname}:{norm(x)[:60]}", f"unpacking {recv}.split({sep!r}) is dominated by a test that {sep!r} occurs in {recv} (or a ValueError handler)", fi.loc(x),
+                     why_fail="no dominating membership test: a piece without the separator raises ValueError (not enough values to unpack)")
+    # K10: zip(..., strict=True) over sheet rows / headers raises ValueError on ragged input (a short or long CSV row)
+    n_zip = 0
+    for fi in repo.all_functions():
+        if fi.fq not in reach:
+            continue
+        for x in walk_own(fi.node):
+            if isinstance(x, ast.Call) and isinstance(x.func, ast.Name) and x.func.id == "zip":
+                n_zip += 1
+                st = kw(x, "strict")
+                okc, v = const_str(ctx, fi.module, st) if st is not None else (True, False)
+                if okc and not v:
+                    continue
+                r4.check(_in_try(x, ("ValueError", "Exception")), f"K10 {fi.qualname}:{norm(x)[:60]}", "a strict zip over sheet data is inside a ValueError handler", fi.loc(x),
+                         why_fail="rows of unequal length raise ValueError out of convert()")
+    r4.ok("K10 zip census", f"{n_zip} zip() calls on the conversion path examined", "")
     # K2: iteration over a possibly-None slot that another site guards
     guarded, unguarded = [], []
     for fi in repo.all_functions():
